@@ -327,6 +327,69 @@ def replay_login_live(label):
     return dict(confirmed=bad is not None, n=1, call='LoginReactor.react(encryption request) with a real RSA-1024 key', observed=bad or 'conforms')
 
 
+class RsaHelperCall(Unit):
+    """encrypt_token_and_secret as a public function of its own: (encrypted token, encrypted secret) under the given key,
+    PKCS#1 v1.5 - whether the three documented parameters are passed by position or BY NAME (seeded change C18-r12:
+    parameters and results reordered consistently, so that only keyword callers get the two ciphertexts swapped)."""
+    prop = 'C18'
+    name = 'C18.rsa.helper-call'
+    functions = ('minecraft.networking.encryption.encrypt_token_and_secret',)
+
+    def run(self, I):
+        E = I.E
+        tr = Trace()
+        install_crypto(I, tr)
+        pub = SBytes([E.new_blob('public_key')])
+        tok = SBytes([E.new_blob('verify_token')])
+        sec = SBytes([E.new_blob('secret', 16)])
+        by_name = bool(E.fork(2, 'keyword-call'))
+        try:
+            if by_name:
+                r = I.call(encryption.encrypt_token_and_secret, pubkey=pub, verification_token=tok, shared_secret=sec)
+            else:
+                r = I.call(encryption.encrypt_token_and_secret, pub, tok, sec)
+        except PyRaise as e:
+            E.check('rsa.helper.no-raise', False, note='%r' % (e.exc,))
+            return None
+        rsa = lambda x: GhostPubKey(pub).encrypt(x, asym_padding.PKCS1v15())
+        E.check('rsa.helper.result', isinstance(r, tuple) and len(r) == 2 and _same(r[0], rsa(tok)) and _same(r[1], rsa(sec)),
+                note='(RSA(token), RSA(secret)) in that order, %s' % ('parameters passed by their documented names' if by_name
+                                                                        else 'parameters passed by position'))
+        return None
+
+    def replay(self, model, label):
+        return replay_rsa_helper()
+
+    def bounded(self, rng, tier):
+        rp = replay_rsa_helper()
+        return dict(name='C18.rsa.helper.real-key', evaluations=rp['n'], bound='positional and keyword call with a real RSA-1024 key, '
+                    'both ciphertexts decrypted by the key holder', failures=[dict(call=rp['call'], observed=rp['observed'],
+                                                                                  witness='rsa-helper')] if rp['confirmed'] else [])
+
+
+def replay_rsa_helper():
+    from cryptography.hazmat.primitives.asymmetric import rsa
+    from cryptography.hazmat.backends import default_backend
+    key = rsa.generate_private_key(public_exponent=65537, key_size=1024, backend=default_backend())
+    der = key.public_key().public_bytes(serialization.Encoding.DER, serialization.PublicFormat.SubjectPublicKeyInfo)
+    tok, sec = b'\x01\x02\x03\x04', bytes(range(16))
+    n = 0
+    for how in ('position', 'name'):
+        n += 1
+        if how == 'position':
+            k, r = native_call(encryption.encrypt_token_and_secret, der, tok, sec)
+        else:
+            k, r = native_call(encryption.encrypt_token_and_secret, pubkey=der, verification_token=tok, shared_secret=sec)
+        try:
+            got = (key.decrypt(r[0], asym_padding.PKCS1v15()), key.decrypt(r[1], asym_padding.PKCS1v15())) if k == 'ok' else None
+        except Exception as e:      # noqa
+            got = repr(e)
+        if got != (tok, sec):
+            return dict(confirmed=True, n=n, call='encrypt_token_and_secret with the parameters passed by %s' % how,
+                        observed='%s; the key holder decrypts the returned pair to %r, expected (token, secret) = %r' % (k, got, (tok, sec)))
+    return dict(confirmed=False, n=n, call='encrypt_token_and_secret', observed='conforms')
+
+
 class SimpleSteps(Unit):
     """compress.step, plugin.step, success.step and the frame condition for every other packet."""
     prop = 'C10'
